@@ -69,6 +69,10 @@ def run(ctx):
     ht = HR.HeaderTable(P, G)
     check_sizes(ctx, ht, 'C19.5', select=lambda f: f.module.name == 'conversion_utils')
     ctx.floor('C19.5', 2, 'size formulas of the fresh-header writer (3D and 2D branch)')
+    ctx.rule('C19.6', 'every accepted layout reads back through canonical addresses, decodes and crops (rules of C02, all layout modes incl. non-square)')
+    from .. import layoutrules as LR
+    LR.report(ctx, LR.collect(ctx.shared), {'L1': 'C19.6', 'DEC': 'C19.6', 'L3': 'C19.6', 'L4': 'C19.6'})
+    ctx.floor('C19.6', 30, 'read / decode / assembly / crop sites over the layout modes')
     entry, cores = resolver(P, G)
     for f in cores:
         fm = FactMap(f.node)
